@@ -4,6 +4,8 @@ import (
 	"bytes"
 
 	"github.com/go-logr/logr"
+	"go.minekube.com/gate/pkg/edition/java/proto/packet"
+	"go.minekube.com/gate/pkg/edition/java/proto/state"
 	"go.minekube.com/gate/pkg/gate/proto"
 	zz "go.minekube.com/gate/pkg/internal/zzverif"
 )
@@ -104,4 +106,27 @@ func VerifHarness_RelayBoundarySizes() {
 	next, _, err := rcv.readPayload()
 	zz.Assert(err == nil && bytes.Equal(next, marker), "the frame after a boundary-size payload is corrupted (the announced frame length was wrong)")
 	zz.Reach("boundary")
+}
+
+// A known packet type that carries more bytes than the proxy's decoder for that version reads (a newer
+// backend, a modded client): the decoder reports the packet, and the payload it hands on for relaying is
+// still the whole payload, not the part it understood.
+func VerifHarness_KnownPacketWithTrailingBytesKeepsPayload() {
+	zz.MaxLen(12)
+	d := NewDecoder(bytes.NewReader(nil), proto.ClientBound, logr.Discard())
+	d.SetState(state.Play)
+	d.SetProtocol(767)
+	id, ok := state.FromDirection(proto.ClientBound, state.Play, 767).PacketID(&packet.KeepAlive{})
+	zz.Assert(ok, "keep-alive is not registered")
+	extra := zz.Bytes(zz.Choose(4))
+	payload := append([]byte{byte(id)}, zz.Bytes(8)...)
+	payload = append(payload, extra...)
+	whole := append([]byte(nil), payload...)
+	ctx, err := d.decodePayload(payload)
+	zz.Assert(ctx != nil, "a known packet with trailing bytes produced no packet context")
+	zz.Assert(bytes.Equal(ctx.Payload, whole), "the payload handed on for relaying is not the payload that came in (trailing bytes the decoder did not read were cut off)")
+	if len(extra) > 0 {
+		zz.Assert(err != nil, "bytes the packet decoder left unread were not reported")
+		zz.Reach("trailing")
+	}
 }
